@@ -46,7 +46,7 @@ OFFSETS = (0, 30, 200)
 POINTS = (3, 7)
 ROT_DT = 0.01
 G = 9.81
-MEASURES = ('pga', 'pgv', 'arias_intensity', 'func-scalar', 'func-series', 'velocity', 'displacement', 's_a')
+MEASURES = ('pga', 'pgv', 'arias_intensity', 'func-scalar', 'func-series', 'func-lambda-max', 'func-lambda-sumsq', 'velocity', 'displacement', 's_a')
 # named parameters whose value is a whole series: the scan must return that series for every angle (shape (points, len))
 SERIES_MEASURES = ('velocity', 'displacement', 's_a')
 S_A_POINTS = (3,)       # 's_a' (100 periods, two spectra per angle) only with the smaller number of scan points
@@ -228,7 +228,7 @@ def build(tier, seed):
                                   'zero_and_omitted_bound_blocks': [[m, L, f] for m, L, f, _ in SS_MENU_BLOCKS],
                                   'families': {'all': 'all words of length L', 'R27': '(x,y,z,1[,0])', 'R9': '(x,y,3,1[,0])', 'R3': '(x,1,3,1[,0])'}}},
         'required_classes': ['rot-theta-0', 'rot-theta-90', 'rot-negation', 'rot-general-angle',
-                             'scan-pga', 'scan-pgv', 'scan-arias_intensity', 'scan-func-scalar', 'scan-func-series',
+                             'scan-pga', 'scan-pgv', 'scan-arias_intensity', 'scan-func-scalar', 'scan-func-series', 'scan-func-lambda-max', 'scan-func-lambda-sumsq',
                              'scan-velocity', 'scan-displacement', 'scan-s_a', 'scan-series-valued-parameter',
                              'scan-offset-0', 'scan-offset-30', 'scan-offset-200', 'scan-points-3', 'scan-points-7',
                              'scan-series-last-differs-from-first', 'scan-defaults-after-explicit',
@@ -297,6 +297,10 @@ def ref_measure(name, c, dt):
         return math.fsum(abs(v) for v in c)
     if name == 'func-series':
         return math.fsum(c)          # last value of the running sum
+    if name == 'func-lambda-max':
+        return max(c)
+    if name == 'func-lambda-sumsq':
+        return math.fsum(v * v for v in c)
     if name in ('velocity', 'displacement'):
         v = [0.0]
         for i in range(1, len(c)):
@@ -320,6 +324,11 @@ def _f_scalar(sig):
 
 def _f_series(sig):
     return np.cumsum(sig.values)
+
+
+# two ANONYMOUS user measures (same __name__), asked one after the other on the same component objects
+_f_lam_max = lambda sig: float(np.max(sig.values))              # noqa: E731   signed maximum: distinguishes theta from theta+180
+_f_lam_sumsq = lambda sig: float(np.sum(np.asarray(sig.values, dtype=float) ** 2))      # noqa: E731
 
 
 def circ_diff(a, b):
@@ -471,6 +480,10 @@ def _rot_body(r, ns, we, tag, mult, off, typ):
             kw = {} if defaults else {'angle_off_ns': off_ns, 'points': pts}
             if meas == 'func-scalar':
                 kw['func'] = _f_scalar
+            elif meas == 'func-lambda-max':
+                kw['func'] = _f_lam_max
+            elif meas == 'func-lambda-sumsq':
+                kw['func'] = _f_lam_sumsq
             elif meas == 'func-series':
                 kw['func'] = _f_series
                 if plain and n > 1 and any(abs(math.fsum(cb) - cb[0]) > 1e-6 for cb in combos):
@@ -911,7 +924,8 @@ def snippet(case, v):
             "    print(ns.values * np.cos(th) + we.values * np.sin(th)); print(eqsig.combine_at_angle(ns, we, sub['theta'] + 180).values)\n"
             "else:\n"
             "    m = sub['measure']; kw = {'parameter': m} if not m.startswith('func') else \\\n"
-            "        {'func': (lambda s: float(np.sum(np.abs(s.values)))) if m == 'func-scalar' else (lambda s: np.cumsum(s.values))}\n"
+            "        {'func': {'func-scalar': (lambda s: float(np.sum(np.abs(s.values)))), 'func-lambda-max': (lambda s: float(np.max(s.values))),\n"
+            "                  'func-lambda-sumsq': (lambda s: float(np.sum(s.values ** 2)))}.get(m, lambda s: np.cumsum(s.values))}\n"
             "    if sub['offset'] != 'omitted': kw.update(angle_off_ns=sub['offset'], points=sub['points'])\n"
             "    print(eqsig.compute_rotated(ns, we, **kw))\n")
     if case.get('kind') in ('tm', 'tm-long'):
